@@ -184,9 +184,6 @@ theorem serializeAt_loading (c : Codec τ α) (hc : c.Lawful) : ∀ (ps : List I
       · rw [h, hmp]; exact hyok
       · exact hok q h
 
-/-- the addresses of the elements of `v` in canonical order -/
-def canonAddrs (v : View) : List Int := (boxIndices v.exts).map v.addr
-
 /-- **C17, views (saving).**  A view (of any dimensionality, through either `serialize` overload) saves exactly its own
     elements `v[idx]`, `idx` running over the view's index box in canonical order — no other token — and saving does not
     change the memory. -/
